@@ -223,6 +223,20 @@ CHECKS["C20"] = {
             "flush is observed through its consequence, the first next request",
     "technique": "TLC design check of the extension model + TLC trace validation of the real extension under TLC-generated invocation histories",
 }
+CHECKS["C17"] = {
+    "text": "BackendBatching.tla models the batchers (datadog / newrelic maybeFlush(+20) and finish, influxdb count >= per-batch, otlp groups, "
+            "cloudwatch chunks of 20, the statsd relay's overflow handler over line lengths) as automata composed with the BatchProp monitor "
+            "(valid, size limit, duplicate, unexpected, missing); TLC checks every stream of series up to the bound and refutes three "
+            "deviations. TLC-generated aggregate states x configurations go through the real aggregator and every real backend variant "
+            "(17); strict protocol parsers (InfluxDB line protocol, Graphite plaintext / tagged, Datadog and New Relic JSON, OTLP protobuf, "
+            "CloudWatch inputs, stdout; the relay: gostatsd's own parser) turn the captured payloads back into records, and TLC judges "
+            "every flush of the trace.",
+    "design_ref": "6/C17",
+    "note": "values are compared to 1e-6 absolute (text formats print six decimals); series that a variant's documented naming cannot tell "
+            "apart (graphite legacy / basic drop tags and host, relay with tags disabled) are left out of the comparison; four recorded "
+            "findings (known_findings.json) are reported as KNOWN-FINDING lines",
+    "technique": "TLC design check of the batcher models + TLC judging of parsed-back payloads of real backends for TLC-generated aggregate states",
+}
 NOT_APPLICABLE = [{"property_id": p, "reason": "check not built yet (build in progress; see DESIGN.md Appendix B for the order)"}
                   for p in ALL if p not in CHECKS]
 ENGINES[0]["serves_properties"] = sorted(CHECKS)
